@@ -12,7 +12,7 @@ package mem
 //@   serves C10, C11
 //@   requires memOk(mdb) && ctx != nil
 //@   premise !sameBacking(key, mdb.DbBase.baseDb.sid)
-//@   modifies mdb.DbBase.baseDb.sid[*], key[*]
+//@   modifies mdb.DbBase.baseDb.sid[len(mdb.DbBase.baseDb.sid):cap(mdb.DbBase.baseDb.sid)], key[len(key):cap(key)]
 //@   ensures @err (result1 != nil) == (mdb.DbBase.baseDb.pfx == 0)
 //@   ensures @default result1 == nil ==> result0.Default == old(defKey(mdb, key)) && result0.Default != ""
 //@   ensures @notrans result1 == nil && (!db.translatable(mdb.DbBase.baseDb.pfx) || (mdb.DbBase.baseDb.lang == nil && !db.ctxHasLang(ctx))) ==> result0.Translation == ""
@@ -33,7 +33,7 @@ package mem
 //@   serves C10
 //@   requires memOk(mdb) && ctx != nil
 //@   premise !sameBacking(key, mdb.DbBase.baseDb.sid)
-//@   modifies mdb.DbBase.baseDb.sid[*], key[*], mdb.store[transKey(mdb, ctx, key)], mdb.store[defKey(mdb, key)]
+//@   modifies mdb.DbBase.baseDb.sid[len(mdb.DbBase.baseDb.sid):cap(mdb.DbBase.baseDb.sid)], key[len(key):cap(key)], mdb.store[transKey(mdb, ctx, key)], mdb.store[defKey(mdb, key)]
 //@   ensures[C10] @locked !old(forall(n, 0, 8, !(bit(mdb.DbBase.baseDb.pfx, n) && bit(mdb.DbBase.baseDb.lock, n)))) ==> result != nil
 //@     && all[string](k, in(k, mdb.store) == old(in(k, mdb.store)) && mdb.store[k] == old(mdb.store[k]))
 //@   ensures[C10] @notype mdb.DbBase.baseDb.pfx == 0 ==> result != nil
@@ -46,7 +46,7 @@ package mem
 //@   serves C10
 //@   requires memOk(mdb) && ctx != nil
 //@   premise !sameBacking(key, mdb.DbBase.baseDb.sid)
-//@   modifies mdb.DbBase.baseDb.sid[*], key[*]
+//@   modifies mdb.DbBase.baseDb.sid[len(mdb.DbBase.baseDb.sid):cap(mdb.DbBase.baseDb.sid)], key[len(key):cap(key)]
 //@   ensures[C10] @trans mdb.DbBase.baseDb.pfx != 0 && old(hasTrans(mdb, ctx)) && in(old(transKey(mdb, ctx, key)), mdb.store) ==> result1 == nil && result0 == mdb.store[old(transKey(mdb, ctx, key))]
 //@   ensures[C10] @fallback mdb.DbBase.baseDb.pfx != 0 && !(old(hasTrans(mdb, ctx)) && in(old(transKey(mdb, ctx, key)), mdb.store)) && in(old(defKey(mdb, key)), mdb.store)
 //@     ==> result1 == nil && result0 == mdb.store[old(defKey(mdb, key))]
